@@ -29,7 +29,10 @@ RULE = ("case 'frame' = (format, generated matrix as in C06 but with factors/off
         "original is described after the last step and before the export, the features compared are the same. "
         "Non-trivial = distinct case whose frame has a non-integer factor, a value table or a multiplexer.")
 PARTIAL = c06.PARTIAL + ["number rendering/parsing is proved separately (Props/Num.lean); which renderer each writer calls is tied by this check only"]
-ASSUMPTIONS = c06.ASSUMPTIONS + ["feature table per format taken from docs/formats.rst and the property text (Driver/C06.lean `carries`)",
+ASSUMPTIONS = c06.ASSUMPTIONS + ["histories, ARXML: an ECU that has been a receiver of a frame earlier in the history is not made its sender (frame.receivers of the real "
+                                 "object may still list it after del_receiver, and the ARXML writer gives an ECU one port per frame: a sender that is also a stale "
+                                 "receiver would be written as receiver only - a state no reader and no single API call produces)",
+                                 "feature table per format taken from docs/formats.rst and the property text (Driver/C06.lean `carries`)",
                                  "histories: every ECU named by a step is in the ECU list of the matrix when the file is written (add_ecu before, or update_ecu_list "
                                  "after the step) for ARXML, XLS and KCD, whose files describe receivers and senders per listed ECU (KCD: a Consumer refers to the Node element "
                                  "of a listed ECU); DBC, DBF, JSON and SYM are also given ECUs that are named by a signal or frame only",
@@ -110,10 +113,14 @@ def gen_history(rng, desc, fmt):
     def receivers_of(i):
         return {e for l in rx[i].values() for e in l}
 
+    # every ECU that has been a receiver of the frame at some point of the history: `frame.receivers` of the real object may still hold it
+    # after a del_receiver step (the list is only rebuilt by update_receiver), and the ARXML writer gives an ECU one port per frame
+    ever_rx = [set(receivers_of(i)) for i in range(len(frames))]
+
     def pick_ecu(i, role):
         """an ECU for frame i in the given role: mostly a listed one, sometimes a new name (listed first, later, or - where the format does not
         need the list - never)"""
-        avoid = set(tx[i]) if (role == "rx" and fmt == "arxml") else receivers_of(i) if (role == "tx" and fmt == "arxml") else set()
+        avoid = set(tx[i]) if (role == "rx" and fmt == "arxml") else (receivers_of(i) | ever_rx[i]) if (role == "tx" and fmt == "arxml") else set()
         cands = [e for e in listed if e not in avoid]
         if origin == "same" and fmt in NEEDS_ECU_LIST:
             # the reader of the format under test made the ECU list: it has the ECUs that send or receive something, others may be gone
@@ -149,6 +156,7 @@ def gen_history(rng, desc, fmt):
             if e is None:
                 continue
             steps.append([kind, fkey(i), e])
+            ever_rx[i].add(e)
             for n in names:
                 if e not in rx[i][n]:
                     rx[i][n].append(e)
@@ -159,6 +167,7 @@ def gen_history(rng, desc, fmt):
                 continue
             n = rng.choice(names)
             steps.append([kind, fkey(i), n, e])
+            ever_rx[i].add(e)
             if e not in rx[i][n]:
                 rx[i][n].append(e)
             listed_later(e, how)
@@ -191,6 +200,7 @@ def gen_history(rng, desc, fmt):
             steps.append([kind, old, e])
             listed[listed.index(old)] = e
             for j in range(len(frames)):
+                ever_rx[j] = {e if x == old else x for x in ever_rx[j]}
                 tx[j] = [e if x == old else x for x in tx[j]]
                 for n in rx[j]:
                     rx[j][n] = [e if x == old else x for x in rx[j][n]]
